@@ -244,3 +244,102 @@ def undo_renames(tree, relpath, log=None):
                                     if k.arg in pm:
                                         k.arg = pm[k.arg]
     return n
+
+
+# --------------------------------------------------------------------------
+# how did a function change relative to the reviewed baseline?
+# --------------------------------------------------------------------------
+class _Skeleton(ast.NodeTransformer):
+    """node types and arity only: identifiers, constants, operators, attribute and keyword names are blanked"""
+
+    def visit_Name(self, n):
+        return ast.Name(id="_", ctx=ast.Load())
+
+    def visit_arg(self, n):
+        return ast.arg(arg="_", annotation=None)
+
+    def visit_Constant(self, n):
+        return ast.Constant(value=0)
+
+    def visit_Attribute(self, n):
+        self.generic_visit(n)
+        return ast.Attribute(value=n.value, attr="_", ctx=ast.Load())
+
+    def visit_BinOp(self, n):
+        self.generic_visit(n)
+        return ast.BinOp(left=n.left, op=ast.Add(), right=n.right)
+
+    def visit_UnaryOp(self, n):
+        self.generic_visit(n)
+        return ast.UnaryOp(op=ast.Not(), operand=n.operand)
+
+    def visit_BoolOp(self, n):
+        self.generic_visit(n)
+        return ast.BoolOp(op=ast.And(), values=n.values)
+
+    def visit_Compare(self, n):
+        self.generic_visit(n)
+        return ast.Compare(left=n.left, ops=[ast.Eq() for _ in n.ops], comparators=n.comparators)
+
+    def visit_AugAssign(self, n):
+        self.generic_visit(n)
+        return ast.AugAssign(target=n.target, op=ast.Add(), value=n.value)
+
+    def visit_keyword(self, n):
+        self.generic_visit(n)
+        return ast.keyword(arg="_" if n.arg else None, value=n.value)
+
+    def visit_Subscript(self, n):
+        self.generic_visit(n)
+        return ast.Subscript(value=n.value, slice=n.slice, ctx=ast.Load())
+
+
+def _skeleton(node):
+    try:
+        return ast.dump(_Skeleton().visit(copy.deepcopy(node)), annotate_fields=False)
+    except Exception:
+        return ast.dump(node, annotate_fields=False)
+
+
+def _nesting(fn):
+    """sequence of (depth, kind) of all statements: the control structure"""
+    out = []
+
+    def walk(stmts, d):
+        for s in stmts:
+            if isinstance(s, (ast.FunctionDef, ast.AsyncFunctionDef, ast.ClassDef)):
+                continue
+            if isinstance(s, ast.Expr) and isinstance(s.value, ast.Constant) and isinstance(s.value.value, str):
+                continue
+            out.append((d, type(s).__name__))
+            for f in ("body", "orelse", "finalbody"):
+                if isinstance(getattr(s, f, None), list):
+                    walk(getattr(s, f), d + 1)
+            for h in getattr(s, "handlers", []) or []:
+                walk(h.body, d + 1)
+    walk(fn.body, 0)
+    return out
+
+
+def change_kind(cur_fn, base_fn):
+    """'same' (identical up to renames/comments), 'leaf' (same statements and control structure; only identifiers, constants,
+    operators, attribute or keyword names differ somewhere) or 'restructured' (statements added, removed, split, merged or
+    re-nested)"""
+    if base_fn is None:
+        return "restructured"
+    if _nesting(cur_fn) != _nesting(base_fn):
+        return "restructured"
+    cs, bs = _flat_stmts(cur_fn), _flat_stmts(base_fn)
+    if len(cs) != len(bs):
+        return "restructured"
+    leaf = False
+    for (k1, a), (k2, b) in zip(cs, bs):
+        if k1 != k2 or _skeleton(a) != _skeleton(b):
+            return "restructured"
+        if ast.dump(a, annotate_fields=False) != ast.dump(b, annotate_fields=False):
+            leaf = True
+    return "leaf" if leaf else "same"
+
+
+def baseline_func(relpath, qual):
+    return _baseline_funcs(relpath).get(qual)
